@@ -5,6 +5,7 @@ import (
 	"encoding/binary"
 	"errors"
 	"fmt"
+	"io"
 	"sync/atomic"
 	"time"
 
@@ -32,7 +33,7 @@ type Fault struct {
 var masterFaults = []string{"fin", "rst", "short", "outofseq", "err", "eof", "invalid", "unsupported", "undecodable"}
 
 // Replica-side fault kinds.
-var clientFaults = []string{"cancel_out", "cancel_in", "cancel_log", "handler_err", "handler_err_cancel", "mapper_err", "mapper_cols"}
+var clientFaults = []string{"cancel_out", "cancel_in", "cancel_busy", "cancel_log", "handler_err", "handler_err_cancel", "mapper_err", "mapper_cols"}
 
 // Connect-phase fault kinds.
 var connectFaults = []string{"refuse", "err_handshake", "err_query", "cancel_handshake"}
@@ -207,6 +208,17 @@ type FaultCase struct {
 
 var errInjected = errors.New("injected handler failure")
 
+// handlerErrors are the values an injected handler failure may carry: a handler can fail with
+// anything, including errors that look like "clean end" sentinels elsewhere.
+var handlerErrors = []error{errInjected, io.EOF, context.Canceled, io.ErrUnexpectedEOF, context.DeadlineExceeded, errors.New("")}
+
+func handlerErr(f Fault) error {
+	if f.Sub < 0 {
+		return errInjected
+	}
+	return handlerErrors[f.Sub%len(handlerErrors)]
+}
+
 // drawFault draws a fault for a history whose fault-free script from the given
 // position has nsteps packets, ntx deliveries and nmaps distinct table maps.
 func drawFault(rt *rapid.T, kinds []string, nsteps, ntx int) Fault {
@@ -233,8 +245,9 @@ func drawFault(rt *rapid.T, kinds []string, nsteps, ntx int) Fault {
 		}
 	case f.Kind == "cancel_out":
 		f.At = rapid.IntRange(0, nsteps).Draw(rt, "cancel_at")
-	case f.Kind == "cancel_in" || f.Kind == "handler_err" || f.Kind == "handler_err_cancel":
+	case f.Kind == "cancel_in" || f.Kind == "cancel_busy" || f.Kind == "handler_err" || f.Kind == "handler_err_cancel":
 		f.At = rapid.IntRange(1, max(1, ntx)).Draw(rt, "call_at")
+		f.Sub = rapid.IntRange(0, len(handlerErrors)-1).Draw(rt, "handler_err_value")
 	case f.Kind == "cancel_log":
 		// the context is cancelled at the At-th log call made on the Stream goroutine: a cancellation
 		// between any two steps of the parser (e.g. after it took a commit event, before the hand-over)
@@ -297,6 +310,24 @@ func faultAttempt(ss *session, l *hist.Layout, spec AttemptSpec) (attempt, func(
 			}
 			return nil
 		}
+	case f.Kind == "cancel_busy":
+		// the context is cancelled from outside while a handler call is in progress; the handler
+		// then finishes and ACCEPTS the transaction
+		ctx, cancel := context.WithCancel(context.Background())
+		at.ctx = ctx
+		cleanup = cancel
+		n := 0
+		at.handler = func(tx *gobinlog.Transaction, st *attemptState) error {
+			n++
+			if n == f.At {
+				go func() {
+					time.Sleep(200 * time.Microsecond)
+					cancel()
+				}()
+				time.Sleep(3 * time.Millisecond)
+			}
+			return nil
+		}
 	case f.Kind == "cancel_log":
 		ctx, cancel := context.WithCancel(context.Background())
 		at.ctx = ctx
@@ -317,7 +348,7 @@ func faultAttempt(ss *session, l *hist.Layout, spec AttemptSpec) (attempt, func(
 			n++
 			if n == f.At {
 				cancel()
-				return errInjected
+				return handlerErr(f)
 			}
 			return nil
 		}
@@ -326,7 +357,7 @@ func faultAttempt(ss *session, l *hist.Layout, spec AttemptSpec) (attempt, func(
 		at.handler = func(tx *gobinlog.Transaction, st *attemptState) error {
 			n++
 			if n == f.At {
-				return errInjected
+				return handlerErr(f)
 			}
 			return nil
 		}
